@@ -48,6 +48,72 @@ static void mon_cb(unsigned block, unsigned total, void *u) {
 	sim_seam("monitor", block, total);
 }
 
+// structured streams: block/table headers of the static-Huffman family and of -pm2- with boundary values in their
+// count and single-code fields (real encoders never emit these forms; random bytes reach them with probability ~2^-17)
+struct BitW {
+	Bytes out; uint32_t acc = 0; int nb = 0;
+	void put(uint32_t v, int bits) { for (int b = bits - 1; b >= 0; --b) { acc = (acc << 1) | ((v >> b) & 1); if (++nb == 8) { out.push_back((uint8_t) acc); acc = 0; nb = 0; } } }
+	void finish() { if (nb) { acc <<= (8 - nb); out.push_back((uint8_t) acc); acc = 0; nb = 0; } }
+};
+
+static void gen_structured(Rng &rng, const std::string &method, Bytes &out) {
+	BitW w;
+	if (method == "-pm2-") {
+		w.put((uint32_t) rng.below(2), 1);
+		static const uint32_t ncs[] = {0, 1, 8, 9, 10, 28, 29, 30, 31, 16, 20};
+		uint32_t nc = ncs[rng.below(11)];
+		uint32_t minlen = rng.chance(1, 3) ? 0 : (uint32_t) rng.below(8);
+		w.put(nc, 5);
+		w.put(minlen, 3);
+		if (minlen != 0) {
+			uint32_t lb = (uint32_t) rng.below(8);
+			w.put(lb, 3);
+			for (uint32_t i = 0; i < nc; ++i) w.put((uint32_t) rng.below(1u << lb), (int) lb);
+		}
+		// offset tree: 5 lengths of 3 bits; incomplete and over-subscribed shapes
+		static const uint32_t shapes[][5] = {{1, 7, 0, 0, 0}, {7, 7, 7, 7, 7}, {1, 1, 1, 1, 1}, {0, 0, 0, 0, 5}, {2, 3, 7, 6, 5}, {0, 0, 0, 0, 0}};
+		const uint32_t *sh = shapes[rng.below(6)];
+		for (int i = 0; i < 5; ++i) w.put(rng.chance(1, 4) ? (uint32_t) rng.below(8) : sh[i], 3);
+	} else {
+		int offbits = (method == "-lh4-" || method == "-lh5-") ? 4 : method == "-lk7-" ? 6 : 5;
+		int blocks = 1 + (int) rng.below(2);
+		for (int b = 0; b < blocks; ++b) {
+			static const uint32_t lens[] = {0, 1, 2, 3, 16, 300, 65535};
+			w.put(lens[rng.below(7)], 16);
+			// temporary table
+			static const uint32_t tn[] = {0, 0, 1, 3, 19, 20, 31};
+			uint32_t n = tn[rng.below(7)];
+			w.put(n, 5);
+			if (n == 0) w.put((uint32_t) rng.below(32), 5);
+			else for (uint32_t i = 0; i < n && i < 31; ++i) {
+				uint32_t l = rng.chance(1, 6) ? 7 : (uint32_t) rng.below(7);
+				w.put(l, 3);
+				if (l == 7) { uint32_t ones = (uint32_t) rng.below(12); for (uint32_t k = 0; k < ones; ++k) w.put(1, 1); w.put(0, 1); }
+				if (i == 2) w.put((uint32_t) rng.below(4), 2);
+			}
+			// code table
+			static const uint32_t cn[] = {0, 0, 0, 1, 2, 288, 289, 290, 509, 510, 511};
+			uint32_t nc = cn[rng.below(11)];
+			w.put(nc, 9);
+			if (nc == 0) { static const uint32_t cv[] = {0, 1, 255, 256, 257, 258, 288, 289, 509, 510, 511}; w.put(rng.chance(3, 4) ? cv[rng.below(11)] : (uint32_t) rng.below(512), 9); }
+			else for (uint32_t i = 0; i < nc; ++i) w.put((uint32_t) rng.below(16), 1 + (int) rng.below(4));
+			// offset table
+			uint32_t maxo = (1u << offbits) - 1;
+			uint32_t on = rng.chance(1, 2) ? 0 : (rng.chance(1, 2) ? maxo : (uint32_t) rng.below(maxo + 1));
+			w.put(on, offbits);
+			if (on == 0) w.put(rng.chance(1, 2) ? maxo : (uint32_t) rng.below(maxo + 1), offbits);
+			else for (uint32_t i = 0; i < on; ++i) { uint32_t l = (uint32_t) rng.below(8); w.put(l, 3); if (l == 7) { w.put((uint32_t) rng.below(2), 1); w.put(0, 1); } }
+			// commands
+			size_t nbits = 16 + rng.below(400);
+			for (size_t i = 0; i < nbits; ++i) w.put((uint32_t) rng.below(2), 1);
+		}
+	}
+	size_t tail = rng.below(64);
+	for (size_t i = 0; i < tail; ++i) w.put(rng.byte(), 8);
+	w.finish();
+	out = w.out;
+}
+
 // stream generation shared by C14 and C09 ------------------------------------
 
 static void gen_stream(Rng &rng, Plan &p, bool hostile) {
@@ -58,7 +124,12 @@ static void gen_stream(Rng &rng, Plan &p, bool hostile) {
 	if (pls.empty()) pls = payloads_for("-lh0-");
 	int64_t true_len = 0;
 	int mode = (int) rng.below(hostile ? 10 : 12);
-	if (!pls.empty() && mode >= 2) {
+	bool newfam = method == "-lh4-" || method == "-lh5-" || method == "-lh6-" || method == "-lh7-" || method == "-lhx-" || method == "-lk7-";
+	if ((newfam || method == "-pm2-") && rng.chance(hostile ? 1 : 1, hostile ? 4 : 10)) {
+		gen_structured(rng, method, p.stream);
+		true_len = (int64_t) rng.below(3000);
+		p.sets("payload", "structured");
+	} else if (!pls.empty() && mode >= 2) {
 		const Payload *pl = rng.pick(pls);
 		uint32_t n = (uint32_t) pl->plain.size();
 		if (!pl->cuts.empty() && rng.chance(4, 5)) {
@@ -382,6 +453,7 @@ struct C09 : Scenario {
 		if (p.geti("nfaults")) count("fault.D-BYTE", (uint64_t) p.geti("nfaults"));
 		if (p.gets("cut") == "1") count("fault.S-EOF");
 		if (p.gets("payload") == "random") count("kind.random_bytes");
+		if (p.gets("payload") == "structured") count("kind.structured_table_headers");
 		res.trace = finish_trace();
 		return res;
 	}
